@@ -618,6 +618,12 @@ func (in *Interp) runHandler(handler Value, errv Value) (res []Value) {
 
 // ---- coroutines ----
 
+// maxNestedResumes: the nesting depth of resumes at which resume fails. The
+// exact number is an implementation constant (LUAI_MAXCCALLS = 200 counts C
+// calls of any kind); generated programs only observe that unbounded nesting
+// ends in a failure that pcall can catch.
+const maxNestedResumes = 190
+
 func (in *Interp) newCoroutine(fn Value) *Coroutine {
 	co := &Coroutine{fn: fn, status: "suspended", resumeCh: make(chan []Value), yieldCh: make(chan coMsg)}
 	co.th = &thread{co: co}
@@ -631,6 +637,12 @@ func (in *Interp) Resume(co *Coroutine, args []Value) (bool, []Value) {
 		}
 		return false, []Value{"cannot resume non-suspended coroutine"}
 	}
+	// lua_resume: "C stack overflow" once LUAI_MAXCCALLS (200) resumes are nested
+	if in.resumeDepth >= maxNestedResumes {
+		return false, []Value{"C stack overflow"}
+	}
+	in.resumeDepth++
+	defer func() { in.resumeDepth-- }()
 	prev := in.th
 	if prev.co != nil {
 		prev.co.status = "normal"
